@@ -133,6 +133,8 @@ theorem applyTx_view (s : St) (t : Tx) (key : String) : curVer (applyTx s t) key
 def AdmV (f : View) (t : Tx) : Prop :=
   (∀ ki ∈ t.kin, f ki.key = ki.ver) ∧ (∀ ko ∈ t.kout, ∃ ki ∈ t.kin, ki.key = ko.key)
 
+instance (f : View) (t : Tx) : Decidable (AdmV f t) := by unfold AdmV; exact inferInstance
+
 theorem stepV_default (f : View) : stepV default f = f := by
   funext key
   unfold stepV
@@ -176,6 +178,12 @@ theorem prevOf_written (e : Env) (t : Tx) (f : View) (key : String) (o : Nat) (h
 def RunV (e : Env) : List Nat → View → Prop
   | [], _ => True
   | i :: rest, f => AdmV f (e.tx i) ∧ RunV e rest (stepV (e.tx i) f)
+
+instance decRunV (e : Env) : (l : List Nat) → (f : View) → Decidable (RunV e l f)
+  | [], _ => isTrue trivial
+  | i :: rest, f =>
+    have := decRunV e rest (stepV (e.tx i) f)
+    by unfold RunV; exact inferInstance
 
 /-- the view after a run -/
 def runV (e : Env) (l : List Nat) (f : View) : View := l.foldl (fun g i => stepV (e.tx i) g) f
